@@ -1,8 +1,98 @@
 (** Property C04 — literal template content is reproduced exactly and cannot alter generated code.
-    OBLIGATIONS: C04_nonvacuous *)
-From GV Require Import Compiler.Compile.
+    The emitter splices static content into Go string literals chunk by chunk (the [chunk_*] definitions of
+    Compiler/Emit.v, which the emitter itself uses).  [reads_as p s] says: wherever [p] stands inside a literal,
+    the Go reader (the model of strconv.Unquote, which follows the scanner's escape rules and refuses a raw
+    quote or newline) consumes exactly [p], yields exactly [s], and carries on with what follows.
+    The theorems hold for EVERY byte string in the static position, printable or not, valid UTF-8 or not.
+    OBLIGATIONS: C04_quote_unquote C04_quoted_reads_as_itself C04_chunks_compose C04_literal_of_chunks
+                 C04_text_plain C04_text_escaped C04_tag C04_id C04_class C04_attr_value C04_attr_name_plain C04_comment
+                 C04_nothing_ends_a_literal_early C04_utf8_decode_encode C04_utf8_encode_decode C04_nonvacuous *)
+From GV Require Import Compiler.Compile Proofs.Utf8Proofs Proofs.QuoteProofs Proofs.EscapeProofs Proofs.ChunkProofs.
+Open Scope N_scope.
+
+(** strconv.Unquote inverts strconv.Quote on every byte string *)
+Theorem C04_quote_unquote : forall s, bytes_ok s -> go_unquote (go_quote s) = Some s.
+Proof. exact go_unquote_quote. Qed.
+Print Assumptions C04_quote_unquote.
+
+Theorem C04_quoted_reads_as_itself : forall s, bytes_ok s -> reads_as (quote_literal s) s.
+Proof. exact reads_as_quote. Qed.
+Print Assumptions C04_quoted_reads_as_itself.
+
+(** chunks written one after the other read as the concatenation of what they stand for *)
+Theorem C04_chunks_compose : forall p1 s1 p2 s2, reads_as p1 s1 -> reads_as p2 s2 -> reads_as (p1 ++ p2) (s1 ++ s2).
+Proof. exact reads_as_app. Qed.
+Print Assumptions C04_chunks_compose.
+
+(** and the literal that is closed after them is one Go string with exactly that value *)
+Theorem C04_literal_of_chunks : forall p s, reads_as p s -> go_unquote ([34] ++ p ++ [34]) = Some s.
+Proof. exact reads_as_literal. Qed.
+Print Assumptions C04_literal_of_chunks.
+
+(** the static positions *)
+Theorem C04_text_plain : forall t, bytes_ok t -> reads_as (chunk_text_plain t) t.
+Proof. exact reads_as_quote. Qed.
+Print Assumptions C04_text_plain.
+
+Theorem C04_text_escaped : forall t, bytes_ok t ->
+  reads_as (chunk_text_escaped t) (html_escape t) /\ html_unescape5 (html_escape t) = t.
+Proof. exact chunk_text_escaped_ok. Qed.
+Print Assumptions C04_text_escaped.
+
+Theorem C04_tag : forall tag, bytes_ok tag ->
+  reads_as (chunk_tag_open tag) (lit "<" ++ tag) /\ reads_as (chunk_tag_close tag) (lit "</" ++ tag ++ lit ">").
+Proof. exact chunk_tag_ok. Qed.
+Print Assumptions C04_tag.
+
+Theorem C04_id : forall i, bytes_ok i ->
+  reads_as (chunk_id i) (lit " id=" ++ [34] ++ html_escape i ++ [34]) /\ html_unescape5 (html_escape i) = i.
+Proof. exact chunk_id_ok. Qed.
+Print Assumptions C04_id.
+
+Theorem C04_class : forall names, bytes_ok names ->
+  reads_as (chunk_class names) (lit " class=" ++ [34] ++ html_escape names ++ [34]) /\ html_unescape5 (html_escape names) = names.
+Proof. exact chunk_class_ok. Qed.
+Print Assumptions C04_class.
+
+Theorem C04_attr_value : forall v, bytes_ok v ->
+  reads_as (chunk_attr_value v) (html_escape v ++ [34]) /\ html_unescape5 (html_escape v) = v.
+Proof. exact chunk_attr_value_ok. Qed.
+Print Assumptions C04_attr_value.
+
+(** attribute names are spliced in as they are: the claim holds for names of plain characters
+    (a backslash or quote in a name is known finding F06) *)
+Theorem C04_attr_name_plain : forall name, Forall plain name ->
+  reads_as (chunk_attr_name name) (lit " " ++ name) /\ reads_as (chunk_attr_open name) (lit " " ++ name ++ lit "=" ++ [34]).
+Proof. exact chunk_attr_name_ok. Qed.
+Print Assumptions C04_attr_name_plain.
+
+Theorem C04_comment : forall text, bytes_ok text ->
+  reads_as (chunk_comment text) (lit "<!--" ++ html_escape text ++ lit "-->" ++ [10]) /\ html_unescape5 (html_escape text) = text.
+Proof. exact chunk_comment_ok. Qed.
+Print Assumptions C04_comment.
+
+(** the two things that end a Go interpreted string early are refused by the reader, so a chunk that
+    [reads_as] something holds neither where it would count *)
+Theorem C04_nothing_ends_a_literal_early : forall fu rest,
+  unquote_body fu (34 :: rest) = None /\ unquote_body fu (10 :: rest) = None.
+Proof. intros fu rest. split; [apply unquote_rejects_raw_quote|apply unquote_rejects_raw_newline]. Qed.
+Print Assumptions C04_nothing_ends_a_literal_early.
+
+(** UTF-8: decoding then encoding gives back the bytes, encoding then decoding gives back the rune *)
+Theorem C04_utf8_decode_encode : forall s r n, decode_rune s = Some (r, n) -> ~ (n = 1%nat /\ r = 65533) ->
+  encode_rune r = firstn n s /\ valid_rune r = true.
+Proof. exact encode_decode. Qed.
+Print Assumptions C04_utf8_decode_encode.
+
+Theorem C04_utf8_encode_decode : forall r t, valid_rune r = true ->
+  decode_rune (encode_rune r ++ t) = Some (r, List.length (encode_rune r)).
+Proof. exact decode_encode. Qed.
+Print Assumptions C04_utf8_encode_decode.
 
 Example C04_nonvacuous :
-  go_unquote (go_quote (lit "a""b\c" ++ [10; 255; 195; 169])) = Some (lit "a""b\c" ++ [10; 255; 195; 169]).
-Proof. vm_compute. reflexivity. Qed.
+  go_unquote (go_quote (lit "a""b\c" ++ [10; 255; 195; 169])) = Some (lit "a""b\c" ++ [10; 255; 195; 169])
+  /\ bytes_ok (lit "a""b\c" ++ [10; 255; 195; 169])
+  /\ go_unquote ([34] ++ chunk_tag_open (lit "d""v") ++ chunk_id (lit "x<\y") ++ lit ">" ++ chunk_text_plain (lit "`{#}") ++ chunk_tag_close (lit "d""v") ++ [34])
+     = Some (lit "<d""v id=""x&lt;\y"">`{#}</d""v>").
+Proof. split; [vm_compute; reflexivity|]. split; [repeat constructor|vm_compute; reflexivity]. Qed.
 Print Assumptions C04_nonvacuous.
